@@ -317,24 +317,24 @@ def _bad(s):
 
 
 def _split_chain(out, e):
-    """split `out` into the wire images of the present headers of e (each used once).
-    returns the list of kinds in output order or None."""
+    """all ways to split `out` into the wire images of the present headers of e (each used once):
+    list of kind orders (several when two headers have identical images)."""
     imgs = [(k, enc_slot(k, h)) for k, h in e.items() if h is not None]
-    order = []
-    pos = 0
+    res = []
 
-    def rec(pos, left):
+    def rec(pos, left, acc):
+        if len(res) >= 64:
+            return
         if not left:
-            return [] if pos == len(out) else None
+            if pos == len(out):
+                res.append(list(acc))
+            return
         for i, (k, img) in enumerate(left):
             if out[pos:pos + len(img)] == img:
-                r = rec(pos + len(img), left[:i] + left[i + 1:])
-                if r is not None:
-                    return [k] + r
-        return None
+                rec(pos + len(img), left[:i] + left[i + 1:], acc + [k])
 
-    order = rec(pos, imgs)
-    return order
+    rec(0, imgs, [])
+    return res
 
 
 def _walks(first, order, e, last):
@@ -372,11 +372,11 @@ def _oracle_main(c, out):
         n = int(_OK.match(nh).group(1))
         if len(w) != int(hl):
             out.append(("write-len", {"written": len(w), "header_len": hl}))
-        order = _split_chain(w, e)
-        if order is None:
+        orders = _split_chain(w, e)
+        if not orders:
             out.append(("no-silent-drop", {"written": w.hex(), "present": present}))
-        elif not _walks(first, order, e, n):
-            out.append(("written-chain-not-linked", {"order": order, "first": first, "result": n}))
+        elif not any(_walks(first, order, e, n) for order in orders):
+            out.append(("written-chain-not-linked", {"orders": orders[:4], "first": first, "result": n}))
         if unref or (e["hop"] is not None and first != 0):
             out.append(("inconsistent-is-error", {"unreferenced": unref, "first": first, "next_header": nh}))
         if n not in WALKED:
